@@ -128,6 +128,13 @@ def regrid(env, src, tgt, m0):
     env.assume(total(vals) > 0)
     with env.stubs(ST.interp_contract, ST.chunk_identity):
         out = da.spec.interp(freq=tf, dir=td, maintain_m0=m0)
+    if tgt in ("both", "near") and tf is not None and td is not None:
+        # interp_like takes the target basis from another spectrum
+        other = xr.DataArray(np.zeros((len(tf), len(td))), dims=("freq", "dir"), coords={"freq": tf, "dir": td}, name="efth")
+        with env.stubs(ST.interp_contract, ST.chunk_identity):
+            like = da.spec.interp_like(other, maintain_m0=m0)
+        env.claim(np.array_equal(like.freq.values, out.freq.values) and np.array_equal(like.dir.values, out.dir.values), "interp_like returns the other spectrum's basis")
+        env.close(like.transpose("freq", "dir").values, out.transpose("freq", "dir").values, "interp_like == interp onto the other spectrum's frequencies and directions", rel=0.0, abs_=0.0, ctol=1e-12, catol=0.0)
     out = out.transpose("freq", "dir")
     of = tf if tf is not None else f
     od = td if td is not None else d
